@@ -258,9 +258,21 @@ func TestExplore(t *testing.T) {
 		active := map[string]bool{} // rebalancers between the start of waitAndAddRebalance and the end of unaddRebalance
 		stop := false
 		var sched []string
-		for _, p := range c.Pollers {
+		// a third of the runs: one application thread that polls several times and then calls AllowRebalance itself
+		// ("you can poll many times before calling this function"); nobody else allows, the other pollers stay out
+		selfAllow := run%3 == 2
+		for pi, p := range c.Pollers {
 			s.Go(p, func() {
+				if selfAllow && pi > 0 {
+					return
+				}
 				for k := 0; k < c.Rounds; k++ {
+					if selfAllow && k > 0 && holding[p] && rng.Intn(2) == 0 {
+						cons.allowRebalance()
+						delete(holding, p)
+						delete(outstanding, p)
+						s.Yield("allowed")
+					}
 					cons.waitAndAddPoller()
 					outstanding[p], inPoll[p] = true, true
 					s.Yield("added")
@@ -275,6 +287,11 @@ func TestExplore(t *testing.T) {
 							delete(outstanding, p)
 						}
 					}
+				}
+				if selfAllow && holding[p] {
+					cons.allowRebalance()
+					delete(holding, p)
+					delete(outstanding, p)
 				}
 			})
 		}
@@ -292,6 +309,9 @@ func TestExplore(t *testing.T) {
 		s.Go("app", func() {
 			for !stop {
 				s.Yield("app")
+				if selfAllow {
+					continue
+				}
 				cons.allowRebalance()
 				for p := range holding {
 					delete(holding, p)
